@@ -15,11 +15,13 @@ EXTENDS Integers, Sequences, FiniteSets, TLC, Json, XJudge
 CONSTANTS NReq,      \* number of requests of a scenario
           Conns,     \* downstream connections (1..k)
           MaxSteps,  \* length of the enumerated schedules
-          Defects    \* {} = intended design | "HijackIdFromFrame" | "NoDelete" | "ArrivalOrder" | "RecycleWhileReferenced" | "BodyAliasesReadBuffer"
+          Defects    \* "LocalReplyKeepsOldBody" and the ones below; {} = intended design | "HijackIdFromFrame" | "NoDelete" | "ArrivalOrder" | "RecycleWhileReferenced" | "BodyAliasesReadBuffer"
 
 Reqs == 1..NReq
 Fresh(r) == 1000 + r          \* the client's own id space; upstream ids count 1,2,3.. per upstream connection
 NoTok == 0
+ErrTok(r) == 100 + r          \* token (header and body) of the error answers the upstream produces for request r
+RetryBudget == 3              \* retries the proxy grants a request on a retry_on route (retrystate.go: max(3, num_retries))
 
 VARIABLES
   creq,     \* client view: r -> [st, conn, dsid, short, closedSince]
@@ -34,9 +36,13 @@ VARIABLES
   stale,    \* token of a response whose handler still holds a reference to the per-request objects of a request that has
             \* meanwhile ended by timeout (0 = none)
   ghosted, closed,
+  retry,    \* the scenario runs on a route with retry_on: an upstream error answer is retried
+  uerr,     \* requests for which the upstream has produced an error answer
+  tries,    \* r -> retries granted so far
+  kept,     \* requests whose downstream stream still holds the answer of an earlier attempt
   reenc,    \* the scenario runs on a route that makes the proxy re-encode requests and responses (headers added both ways)
   hist
-vars == <<creq, uans, udup, tmo, uid, uep, ptab, alive, frameid, nextU, epoch, bad, stale, ghosted, closed, reenc, hist>>
+vars == <<creq, uans, udup, tmo, uid, uep, ptab, alive, frameid, nextU, epoch, bad, stale, ghosted, closed, retry, uerr, tries, kept, reenc, hist>>
 
 Unsent == [st |-> "unsent", conn |-> 0, dsid |-> 0, short |-> FALSE, closedSince |-> FALSE]
 
@@ -44,20 +50,23 @@ Init == /\ creq = [r \in Reqs |-> Unsent] /\ uans = {} /\ udup = {} /\ tmo = {}
         /\ uid = [r \in Reqs |-> 0] /\ uep = [r \in Reqs |-> 0]
         /\ ptab = <<>> /\ alive = {} /\ frameid = [r \in Reqs |-> 0]
         /\ nextU = 0 /\ epoch = 0 /\ bad = {} /\ stale = 0 /\ ghosted = FALSE /\ closed = FALSE /\ hist = <<>>
-        /\ reenc \in BOOLEAN
+        /\ reenc \in BOOLEAN /\ retry \in BOOLEAN /\ ~(reenc /\ retry)
+        /\ uerr = {} /\ tries = [r \in Reqs |-> 0] /\ kept = {}
 
 OpenOn(c, id) == { r \in Reqs : creq[r].st = "open" /\ creq[r].conn = c /\ creq[r].dsid = id }
 DoneOn(c, id) == { r \in Reqs : creq[r].st = "replied" /\ creq[r].conn = c /\ creq[r].dsid = id }
 
 (* the client receives a frame: judge it, mark the request replied *)
-ClientRecv2(cq, c, id, ok, htok, btok, prod) ==
+ClientRecv3(cq, c, id, ok, htok, btok, prod, ue) ==
   LET o == { r \in Reqs : cq[r].st = "open" /\ cq[r].conn = c /\ cq[r].dsid = id }
       d == { r \in Reqs : cq[r].st = "replied" /\ cq[r].conn = c /\ cq[r].dsid = id }
       r == CHOOSE x \in o : TRUE
-      q == [tok |-> r, short |-> cq[r].short, unstable |-> FALSE, closedSince |-> cq[r].closedSince]
+      q == [tok |-> r, short |-> cq[r].short, unstable |-> FALSE, closedSince |-> cq[r].closedSince,
+            nil |-> NoTok, errs |-> IF r \in ue THEN {ErrTok(r)} ELSE {}]
   IN [v  |-> IF o = {} THEN Verdict(FALSE, d # {}, [tok |-> 0], ok, htok, btok, prod)
              ELSE Verdict(TRUE, FALSE, q, ok, htok, btok, prod),
       cq |-> IF o = {} THEN cq ELSE [cq EXCEPT ![r].st = "replied"]]
+ClientRecv2(cq, c, id, ok, htok, btok, prod) == ClientRecv3(cq, c, id, ok, htok, btok, prod, uerr)
 ClientRecv(cq, c, id, ok, tok, prod) == ClientRecv2(cq, c, id, ok, tok, tok, prod)
 
 (* ---- client sends request r on connection c; mode = 0: fresh id, k > 0: the id the proxy uses upstream for request k *)
@@ -114,6 +123,29 @@ UpDup(r) ==
   /\ hist' = Append(hist, [op |-> "dup", r |-> r])
   /\ UNCHANGED <<uans, tmo, uid, uep, frameid, nextU, epoch, stale, ghosted, closed>>
 
+(* ---- the upstream answers the current attempt of r with an error status and a body. On a retry_on route the proxy
+   keeps that answer aside and retries (fresh upstream id) while the budget lasts; the attempt after that may be answered,
+   may time out, ... When the budget is used up the error answer itself is forwarded, whole. *)
+UpError(r) ==
+  /\ retry /\ uid[r] # 0 /\ uep[r] = epoch /\ r \notin uans /\ r \in alive /\ creq[r].st = "open"
+  /\ creq[r].short => r \notin tmo
+  /\ uerr' = uerr \cup {r}
+  /\ IF tries[r] < RetryBudget
+     THEN /\ tries' = [tries EXCEPT ![r] = @ + 1]
+          /\ kept' = kept \cup {r}
+          /\ nextU' = nextU + 1
+          /\ uid' = [uid EXCEPT ![r] = nextU + 1]
+          /\ frameid' = [frameid EXCEPT ![r] = nextU + 1]
+          /\ ptab' = [x \in (DOMAIN ptab \ {uid[r]}) \cup {nextU + 1} |-> IF x = nextU + 1 THEN r ELSE ptab[x]]
+          /\ UNCHANGED <<creq, alive, bad, uans>>
+     ELSE /\ LET res == ClientRecv3(creq, creq[r].conn, creq[r].dsid, FALSE, ErrTok(r), ErrTok(r), TRUE, uerr \cup {r})
+             IN creq' = res.cq /\ bad' = bad \cup res.v
+          /\ ptab' = [x \in DOMAIN ptab \ {uid[r]} |-> ptab[x]]
+          /\ alive' = alive \ {r} /\ uans' = uans \cup {r}
+          /\ UNCHANGED <<tries, kept, nextU, uid, frameid>>
+  /\ hist' = Append(hist, [op |-> "uerr", r |-> r])
+  /\ UNCHANGED <<udup, tmo, uep, epoch, stale, ghosted, closed>>
+
 (* ---- decode A / read B / encode A: the answer to a is decoded from the upstream connection's read buffer and handed to
    a's worker; before that worker encodes it for the downstream, the same upstream connection reads (and the proxy
    delivers) the answer to b. When the proxy re-encodes responses from their fields (reenc: the route adds headers, a
@@ -134,10 +166,12 @@ Ghost ==
   /\ hist' = Append(hist, [op |-> "ghost"])
   /\ UNCHANGED <<uans, udup, tmo, uid, uep, frameid, nextU, epoch, stale, closed>>
 
-(* ---- the proxy ends request r with an error reply of its own (timeout, upstream reset) *)
+(* ---- the proxy ends request r with an error reply of its own (timeout, upstream reset): it carries no part of any
+   upstream answer, also when an earlier attempt of r was answered (kept) *)
 ErrorReply(cq, r) ==
   LET id == IF "HijackIdFromFrame" \in Defects THEN frameid[r] ELSE cq[r].dsid
-  IN ClientRecv(cq, cq[r].conn, id, FALSE, NoTok, FALSE)
+      body == IF r \in kept /\ "LocalReplyKeepsOldBody" \in Defects THEN ErrTok(r) ELSE NoTok
+  IN ClientRecv2(cq, cq[r].conn, id, FALSE, NoTok, body, FALSE)
 
 Timeout(r) ==
   /\ creq[r].st # "unsent" /\ creq[r].short /\ r \in alive /\ r \notin tmo
@@ -194,15 +228,20 @@ UpClose ==
   /\ hist' = Append(hist, [op |-> "close"])
   /\ UNCHANGED <<uans, udup, tmo, uid, uep, frameid, stale, ghosted>>
 
-Next == /\ Len(hist) < MaxSteps /\ reenc' = reenc
-        /\ \/ \E r \in Reqs, c \in Conns, m \in 0..NReq, s \in BOOLEAN : Send(r, c, m, s)
-           \/ \E r \in Reqs : UpAnswer(r) \/ UpDup(r) \/ Timeout(r) \/ Race(r) \/ RaceGone(r)
-           \/ \E a, b \in Reqs : Inter(a, b)
-           \/ Ghost \/ UpClose
+Next == /\ Len(hist) < MaxSteps /\ reenc' = reenc /\ retry' = retry
+        /\ \/ \E r \in Reqs : UpError(r)
+           \/ /\ UNCHANGED <<uerr, tries, kept>>
+              /\ \/ \E r \in Reqs, c \in Conns, m \in 0..NReq, s \in BOOLEAN : Send(r, c, m, s)
+                 \/ \E r \in Reqs : UpAnswer(r) \/ UpDup(r) \/ Timeout(r)
+                 \/ \E a, b \in Reqs : Inter(a, b)
+                 \/ Ghost
+                 \* on the retry route the steps that end a request by closing a connection are left out: there a reset is
+                 \* retried as well, which is C03's and C17's subject
+                 \/ ~retry /\ (UpClose \/ \E r \in Reqs : Race(r) \/ RaceGone(r))
 Spec == Init /\ [][Next]_vars
 
 (* ---- C02 ---- *)
 NoMiscorrelation == bad = {}
 
-EmitCase == (Len(hist) = MaxSteps) => PrintT(<<"CASE", ToJson([steps |-> hist, reenc |-> reenc])>>)
+EmitCase == (Len(hist) = MaxSteps) => PrintT(<<"CASE", ToJson([steps |-> hist, reenc |-> reenc, retry |-> retry])>>)
 ====
